@@ -172,14 +172,19 @@ class Watchdog(threading.Thread):
 
 
 def run_kani(scratch, crate, obs, jobs, playback=False):
-    """Returns (json or None, stdout text, wall seconds)."""
-    out_json = os.path.join(scratch, "kani_%s.json" % crate)
+    """crate: a crate name or a list of crate names (one cargo invocation, shared -j pool).
+    Returns (json or None, stdout text, wall seconds)."""
+    crates_ = [crate] if isinstance(crate, str) else list(crate)
+    out_json = os.path.join(scratch, "kani_%s.json" % "+".join(crates_))
     if os.path.exists(out_json):
         os.remove(out_json)
     timeout = max(ob.get("timeout", 300) for ob in obs)
-    cmd = ["cargo", "kani", "-p", crate, "-Z", "function-contracts", "-Z", "stubbing",
-           "-Z", "unstable-options", "--output-format=terse", "--exact",
-           "--harness-timeout", "%ds" % timeout]
+    cmd = ["cargo", "kani"]
+    for c_ in crates_:
+        cmd += ["-p", c_]
+    cmd += ["-Z", "function-contracts", "-Z", "stubbing",
+            "-Z", "unstable-options", "--output-format=terse", "--exact",
+            "--harness-timeout", "%ds" % timeout]
     zs = set()
     for ob in obs:
         for z in ob.get("zflags", []):
@@ -378,9 +383,14 @@ def check_property(prop, tier, only, keep, jobs):
         except Undecided as e:
             log("UNDECIDED: %s" % e)
             return finish(prop, tier, obs, results, [], [], [("<instrumentation>", str(e))], t_start, wd)
-        for c in crates:
-            group = [o for o in kani_obs + canaries if o["crate"] == c]
-            log("[%s] kani: crate %s, %d harnesses" % (prop, c, len(group)))
+        # one cargo invocation for all crates (shared job pool) when harness paths are unique across crates;
+        # falls back to one invocation per crate if the combined build fails
+        hids = [module_path(o["anchor"]) + "::" + o["harness"] for o in kani_obs + canaries]
+        work = [list(crates)] if len(set(hids)) == len(hids) and os.environ.get("VERIF_PER_CRATE") != "1" else [[c] for c in crates]
+        while work:
+            c = work.pop(0)
+            group = [o for o in kani_obs + canaries if o["crate"] in c]
+            log("[%s] kani: crates %s, %d harnesses" % (prop, ",".join(c), len(group)))
             try:
                 data, stdout, wall = run_kani(scratch, c, group, jobs)
             except subprocess.TimeoutExpired:
@@ -388,13 +398,17 @@ def check_property(prop, tier, only, keep, jobs):
                     undecided.append((o["id"], "cargo kani invocation timed out"))
                 continue
             blocks = split_blocks(stdout)
+            if data is None and len(c) > 1:
+                log("[%s] combined invocation gave no result; retrying per crate" % prop)
+                work = [[x] for x in c] + work
+                continue
             if data is None:
                 tail = "\n".join(stdout.splitlines()[-40:])
                 errs = "\n".join(l for l in stdout.splitlines() if l.startswith("error"))[:2000]
                 log(tail)
                 for o in group:
                     if not o.get("_canary"):
-                        undecided.append((o["id"], "kani produced no result for crate %s (compile error / ICE): %s" % (c, errs)))
+                        undecided.append((o["id"], "kani produced no result for crate %s (compile error / ICE): %s" % (",".join(c), errs)))
                 continue
             by_h = {r["harness_id"]: r for r in data.get("verification_results", {}).get("results", [])}
             pd = {r["harness_id"]: r["property_details"] for r in data.get("property_details", [])}
@@ -409,7 +423,7 @@ def check_property(prop, tier, only, keep, jobs):
                         "  %s [%s] %s :: %s @ %s:%s" % (c_.get("status"), c_.get("category"), c_.get("function"), (c_.get("description") or "").replace("\n", " "),
                                                       (c_.get("location") or {}).get("file"), (c_.get("location") or {}).get("line")) for c_ in bad[:40])
                 if o.get("_canary"):
-                    canary_ok[c] = bool(r and r["status"] == "Failure")
+                    canary_ok[o["crate"]] = bool(r and r["status"] == "Failure")
                     continue
                 res = {"id": o["id"], "harness": hid, "kind": o["kind"], "backend": "kani/cbmc+cadical",
                        "fns": o["fns"], "status": None, "time_s": None, "checks": 0, "covers": 0}
